@@ -27,13 +27,6 @@ Definition qshift (dx dy : Z) (r : qrect) : qrect :=
   {| rx := (rx r + inject_Z dx)%Q; ry := (ry r + inject_Z dy)%Q; rw := rw r; rh := rh r |}.
 Definition canvas_rect (W H : Z) : irect := {| ix := 0; iy := 0; iw := W; ih := H |}.
 
-(* A nested group is rendered in the coordinate frame of its parent layer: device pixel (px,py) is the
-   local pixel (px - ox, py - oy), (ox,oy) = accumulated origin of the enclosing layers.  render_group
-   clamps against ctx.max_bbox in that local frame WITHOUT translating it; the clamp is harmless exactly
-   when the canvas, seen from the frame, still lies inside max_bbox. *)
-Definition frame_ok (W H ox oy : Z) (m : irect) : Prop := inside (ishift (- ox) (- oy) (canvas_rect W H)) m.
-Definition frame_okb (W H ox oy : Z) (m : irect) : bool := insideb (ishift (- ox) (- oy) (canvas_rect W H)) m.
-
 (* ---------------------------------------------------------------- resvg::render: max_bbox *)
 (* None = the `.unwrap()` in resvg::render panics *)
 Definition max_bbox (W H : Z) : option irect :=
@@ -48,6 +41,17 @@ Definition layer_panics (bbox : qrect) (no_filters : bool) : bool :=
 Definition layer_box (bbox : qrect) (no_filters : bool) (m : irect) : lres :=
   if layer_panics bbox no_filters then LPanic
   else match layer_ibbox bbox no_filters m with Some r => LBox r | None => LSkip end.
+
+(* Nested layers.  The children of a layer are rendered in the layer's own coordinate frame: device pixel
+   (px,py) is the local pixel (px - ox, py - oy), (ox,oy) = accumulated origin of the enclosing layers, and they
+   are clamped against `layer_child_max` of the parent's clamp box (SOURCE-DERIVED: since ffdf909 the parent's
+   box translated by the layer origin).  `frame m0 ox oy m`: a frame with origin (ox,oy) and clamp box m is
+   reachable from the root frame (0,0,m0) through any number of nested layers. *)
+Inductive frame (m0 : irect) : Z -> Z -> irect -> Prop :=
+| frame_root : frame m0 0 0 m0
+| frame_child : forall ox oy m b nf P,
+    frame m0 ox oy m -> layer_box b nf m = LBox P ->
+    frame m0 (ox + ix P) (oy + iy P) (layer_child_max m P).
 
 (* the box before clamping, as a specification (used by the statements, proved equal to what the
    source-derived code computes when nothing saturates) *)
